@@ -114,7 +114,7 @@ private theorem length_vaxes {t u : PT} {next : Nat} (h : OperandsOK t u next) :
   simpa [PT.vshape] using this
 
 open C06dE C06dL C06cL in
-private theorem sideL {t u : PT} {next : Nat} (h : OperandsOK t u next) (fuel : Nat) :
+theorem sideL {t u : PT} {next : Nat} (h : OperandsOK t u next) (fuel : Nat) :
     SideOK t (expFold fuel t u next).2.2.2.pairs Prod.fst (expFold fuel t u next).1 (expFold fuel t u next).2.1 := by
   have st := (wf_iff_struct t).1 h.wft
   obtain ⟨s1, s2, s3⟩ := szOf_spec h
@@ -159,7 +159,7 @@ private theorem sideL {t u : PT} {next : Nat} (h : OperandsOK t u next) (fuel : 
       omega
 
 open C06dE C06dL C06cL in
-private theorem sideR {t u : PT} {next : Nat} (h : OperandsOK t u next) (fuel : Nat) :
+theorem sideR {t u : PT} {next : Nat} (h : OperandsOK t u next) (fuel : Nat) :
     SideOK u (expFold fuel t u next).2.2.2.pairs Prod.snd (expFold fuel t u next).1 (expFold fuel t u next).2.2.1 := by
   have su := (wf_iff_struct u).1 h.wfu
   obtain ⟨s1, s2, s3⟩ := szOf_spec h
